@@ -56,16 +56,17 @@ P2s      == (-1 :> Q(1, 2)) @@ (1 :> R(-1))
 \* quick: every branch of every operator (empty / one term / several terms, gaps and no gaps in the
 \* Horner scheme, negative powers, cancellation to zero, x = 0, exponent 0, single point)
 \* thorough: the grid of DESIGN section 4 (all <= 3-term polynomials over -2..3 with 6 coefficient values for the
-\* unary facts, 105 x 105 pairs, 25^3 triples, point sets of size 1..4)
+\* unary facts, about 145 x 145 pairs, 25^3 triples, point sets of size 1..4)
 UnG(t)  == IF t = "quick"
-           THEN PolysOver(-2..3, 2, CSmall) \cup ExactlyOver(-1..2, 3, {R(-1), Q(-1, 3)}) \cup ExactlyOver({-2, 0, 1, 3}, 4, {ROne})
+           THEN PolysOver(-2..3, 2, CMid) \cup ExactlyOver(-1..2, 3, {R(-1), Q(-1, 3)}) \cup ExactlyOver({-2, 0, 1, 3}, 4, {ROne})
            ELSE PolysOver(-2..3, 3, CFull)
 EvG(t)  == IF t = "quick"
            THEN PolysOver(-2..3, 2, {R(-1), Q(1, 2)}) \cup ExactlyOver(-1..2, 3, {R(2), Q(-1, 3)}) \cup ExactlyOver({-2, 0, 1, 3}, 4, {R(2)})
            ELSE PolysOver(-2..3, 3, CMid) \cup ExactlyOver({-2, 0, 1, 3}, 4, {R(2), Q(-1, 3)})
 BinG(t) == IF t = "quick"
-           THEN PolysOver(-1..1, 2, {R(-1), R(2)}) \cup {P3a, P3b, P2n, P2s, Mono(2, Q(1, 2)), Mono(-2, R(2))}
+           THEN PolysOver(-1..2, 2, {R(-1), R(2)}) \cup {P3a, P3b, P2n, P2s, Mono(2, Q(1, 2)), Mono(-2, R(2))}
            ELSE PolysOver(-2..3, 2, {R(-1), Q(1, 2)}) \cup ExactlyOver(-1..2, 3, {R(2), Q(-1, 3)})
+                \cup ExactlyOver(-2..3, 1, {ROne, R(2), R(-2), Q(-1, 3)}) \cup ExactlyOver(0..2, 2, {ROne, R(-2)}) \cup {P3a, P3b, P2n, P2s}
 TerG(t) == IF t = "quick"
            THEN {PEmpty, PConst(R(2)), Mono(1, R(-1)), Mono(-1, R(2)), Mono(2, Q(1, 2)), P3a, P2s,
                  (0 :> R(-1)) @@ (1 :> R(2)), (0 :> R(2)) @@ (1 :> R(-2)), (-1 :> R(-1)) @@ (0 :> ROne)}
